@@ -82,7 +82,7 @@ Proof.
   unfold lc_region.
   destruct (Z.abs (e - w) =? 2 * h) eqn:Eg; [lia|].
   assert (Z0: forall x, (x = - (2 * h) \/ x = 0 \/ x = 2 * h) -> x mod (2 * h) = 0).
-  { intros x [->|[->|->]].
+  { intros x [ -> | [ -> | -> ] ].
     - replace (- (2 * h)) with ((-1) * (2 * h)) by ring. apply Z.mod_mul; lia.
     - apply Z.mod_0_l; lia.
     - apply Z.mod_same; lia. }
@@ -149,7 +149,7 @@ Theorem lc_lon_congruent i360 W E lon :
 Proof.
   intros Hl. unfold in_range in Hl. unfold lc_lon.
   assert (Z0: forall x, (x = - (2 * h) \/ x = 0 \/ x = 2 * h) -> x mod (2 * h) = 0).
-  { intros x [->|[->|->]].
+  { intros x [ -> | [ -> | -> ] ].
     - replace (- (2 * h)) with ((-1) * (2 * h)) by ring. apply Z.mod_mul; lia.
     - apply Z.mod_0_l; lia.
     - apply Z.mod_same; lia. }
@@ -191,10 +191,10 @@ Proof.
   destruct Hr as [k [Hk Hr]]. cbv zeta in Hr. unfold east_angle in *.
   unfold lc_region.
   destruct (Z.abs (e - w) =? 2 * h) eqn:Eg.
-  { cbv zeta. unfold lc_lon. replace (2 * h =? 2 * h) with true by lia. replace (0 <? 0) with false by lia.
-    destruct (0 >? 2 * h) eqn:E0; [lia|]. cbn [andb].
+  { destruct (0 >? 2 * h) eqn:E0; [lia|]. cbv zeta. unfold lc_lon.
     split; [intros _; left; unfold full_globe; lia|intros _].
-    pose proof (Z.mod_pos_bound lon (2 * h) ltac:(lia)). lia. }
+    pose proof (Z.mod_pos_bound lon (2 * h) ltac:(lia)).
+    destruct ((2 * h =? 2 * h) && (0 <? 0) && (lon mod (2 * h) =? 0)) eqn:E1; lia. }
   assert (Hng: ~ full_globe h w e) by (unfold full_globe; lia).
   modc (2 * h) (e - w); modc (2 * h) w; modc (2 * h) e;
   repeat match goal with
@@ -208,6 +208,7 @@ Proof.
   | |- context [(?x + h) mod (2 * h)] => modc (2 * h) (x + h)
   | |- context [lon mod (2 * h)] => modc (2 * h) lon
   end; try tauto; try (split; [intros; right; lia | intros [?|?]; [tauto|lia]]).
+  all: modc (2 * h) (lon + h); modc (2 * h) lon; try (split; [intros; right; lia | intros [?|?]; [tauto|lia]]).
 Qed.
 
 (** ** Rejection *)
